@@ -199,10 +199,10 @@ theorem wf_step (s s' : State) (op : Op) (h : WF s) (hs : step s op = .ok s') : 
     · exact wf_add (t := { t with contract := s.nonce + 1 }) h e1 e2 (fun k => get?_set _ _ _ _)
         (fun k => get?_set _ _ _ _)
   | swapToErc20 sender receiver denom amount =>
-    obtain ⟨_, t, b, _, _, _, rfl⟩ := swapTo_ok hs
+    obtain ⟨_, _, t, b, _, _, _, rfl⟩ := swapTo_ok hs
     exact wf_of_lookups h (fun _ => rfl) (fun _ => rfl)
   | swapFromErc20 sender receiver denom amount =>
-    obtain ⟨_, _, t, _, _, _, rfl⟩ := swapFrom_ok hs
+    obtain ⟨_, _, _, t, _, _, _, rfl⟩ := swapFrom_ok hs
     exact wf_of_lookups h (fun _ => rfl) (fun _ => rfl)
   | hookSwap src c to amount =>
     obtain ⟨_, _, h3⟩ := hook_ok hs
@@ -289,10 +289,10 @@ theorem change_step (s s' : State) (op : Op) (h : WF s) (hs : step s op = .ok s'
       · simp [hk]
     · exact .add { t with contract := s.nonce + 1 } e1 e2 (fun k => get?_set _ _ _ _) (fun k => get?_set _ _ _ _)
   | swapToErc20 sender receiver denom amount =>
-    obtain ⟨_, t, b, _, _, _, rfl⟩ := swapTo_ok hs
+    obtain ⟨_, _, t, b, _, _, _, rfl⟩ := swapTo_ok hs
     exact .same (fun _ => rfl) (fun _ => rfl)
   | swapFromErc20 sender receiver denom amount =>
-    obtain ⟨_, _, t, _, _, _, rfl⟩ := swapFrom_ok hs
+    obtain ⟨_, _, _, t, _, _, _, rfl⟩ := swapFrom_ok hs
     exact .same (fun _ => rfl) (fun _ => rfl)
   | hookSwap src c to amount =>
     obtain ⟨_, _, h3⟩ := hook_ok hs
@@ -783,10 +783,10 @@ theorem burned_step (s s' : State) (op : Op) (hs : step s op = .ok s') (d : Stri
     obtain ⟨t, _, _, rfl⟩ := deploy_ok hs
     rfl
   | swapToErc20 sender receiver denom amount =>
-    obtain ⟨_, t, b, _, _, _, rfl⟩ := swapTo_ok hs
+    obtain ⟨_, _, t, b, _, _, _, rfl⟩ := swapTo_ok hs
     rfl
   | swapFromErc20 sender receiver denom amount =>
-    obtain ⟨_, _, t, _, _, _, rfl⟩ := swapFrom_ok hs
+    obtain ⟨_, _, _, t, _, _, _, rfl⟩ := swapFrom_ok hs
     rfl
   | hookSwap src c to amount =>
     obtain ⟨_, _, h3⟩ := hook_ok hs
@@ -843,6 +843,21 @@ theorem fee_split (s s' : State) (payer : Addr) (d : String) (fee : Nat)
       (∀ d', d ≠ d' → supplyOf s' d' = supplyOf s d') := by
   obtain ⟨tax, b', ht, _, he, rfl⟩ := feeHandler_ok h
   exact ⟨tax, fee - tax, by omega, he.payer_ hp1 hp2, he.fc hp1 hp2, he.sup_self, he.tm hp1, he.others, he.sup_other⟩
+
+/-- **C09(5a')** with a sound bank (Σ balances ≤ supply) the burned part leaves the supply exactly -/
+theorem fee_burn_exact (s s' : State) (payer : Addr) (d : String) (fee : Nat) (hsound : Sound s.bank)
+    (h : feeHandler s payer d fee = .ok s') :
+    ∃ tax, tax ≤ fee ∧ taxOf s.params.taxRate fee = some (tax : Int) ∧ supplyOf s' d + (fee - tax) = supplyOf s d := by
+  unfold feeHandler at h
+  split at h; · cases h
+  rename_i tax htax
+  split at h; · cases h
+  rename_i hr
+  split at h; · cases h
+  rename_i b' hm
+  cases h
+  refine ⟨tax.toNat, by omega, ?_, (sound_feeMoves hsound hm).2⟩
+  rw [htax]; congr 1; omega
 
 /-- the token module account is untouched by a fee deduction -/
 theorem deductFee_module_zero {s s1 : State} {payer fee} (h1 : deductFee s payer fee = .ok s1) (hp : payer ≠ TM)
